@@ -85,6 +85,9 @@ ADVERSARIAL_CONSTANTS = ["10 ** 10 ** 8", "9 ** 9 ** 9", "1 << 10 ** 9", "'ab' *
     "quit()", "breakpoint()", "help()", "globals()", "dir()", "id(1)", "hash('a')", "iter(1)", "next(iter([]))", "pow(2, 10**9, 0)", "''.join([1])",
     "'%d' % 'a'", "'{}'.format()", "b'a' + 'a'", "1 if 1/0 else 2", "(lambda: 1/0)()", "[i for i in 1]", "{[]: 1}", "{1, []}", "f'{1/0}'", "1 @ 2",
     "True and 1/0", "False or 1/0", "0 and 1/0", "1 or 1/0", "1 == 1/0", "(1, 2) < (1, 'a')", "complex('x')", "float('1e400')", "10**400 * 1.0",
+    # values that exist but that nobody can wait for (or hold in memory), reached through a call, a method or a format width
+    "pow(7, 7 ** 8) > 1", "(10 ** 4000) ** 4000 > 1", "'a'.ljust(10 ** 10)", "'%0999999999d' % 1", "(9).__pow__(9 ** 9) > 1", "'{:>9999999999}'.format(1)", "'%*d' % (10 ** 9, 1)",
+    "'abc'.center(10 ** 9)", "b'%0999999999d' % 1", "'a'.zfill(10 ** 10)", "(2).__lshift__(10 ** 10)", "'ab'.__mul__(10 ** 11)", "pow(10 ** 4000, 4000)", "bytes(10 ** 10)", "'x'.rjust(2 ** 40)",
 ]
 
 CONDITION_TEMPLATES = [
